@@ -4,6 +4,7 @@ import (
 	"bytes"
 	"context"
 	"fmt"
+	"io"
 	"strings"
 	"time"
 
@@ -77,6 +78,13 @@ func genC02(tier string, seed int64) []Case {
 	// a valid submission paused after validation while its invocation is reset and the next one dispatched
 	add(c02Desc{History: "none", Placement: "validated-then-reset", IDClass: "stale", Op: "response", Submitter: "runtime", NExt: 0})
 	add(c02Desc{History: "ok", Placement: "validated-then-reset", IDClass: "stale", Op: "error", Submitter: "runtime", NExt: 0})
+	// a response whose upload is slow: it starts while its invocation is in flight and ends around / after
+	// that invocation's timeout and the dispatch of the next one
+	for _, h := range []string{"none", "ok"} {
+		for _, n := range []int{0, 1} {
+			add(c02Desc{History: h, Placement: "slow-upload", IDClass: "stale", Op: "response", Submitter: "second-connection", NExt: n})
+		}
+	}
 	if tier == "thorough" {
 		for _, h := range hists {
 			for _, p := range places {
@@ -105,7 +113,7 @@ func runC02(c *Ctx, d c02Desc) {
 	if d.History == "timeout" {
 		timeout = 700
 	}
-	if d.Placement == "validated-then-reset" {
+	if d.Placement == "validated-then-reset" || d.Placement == "slow-upload" {
 		timeout = 350
 	}
 	w, err := NewWorld(vh.Config{TimeoutMs: timeout, Extensions: exts})
@@ -241,6 +249,10 @@ func runC02(c *Ctx, d c02Desc) {
 
 	if d.Placement == "validated-then-reset" {
 		runC02Validated(c, w, d, rt, rtNext, submit)
+		return
+	}
+	if d.Placement == "slow-upload" {
+		runC02SlowUpload(c, w, d, rtNext)
 		return
 	}
 
@@ -410,4 +422,99 @@ func runC02Validated(c *Ctx, w *World, d c02Desc, rt *vh.Party, rtNext *vh.Async
 	if c.WantSample || c.Violated() {
 		c.SetSample(sampleLog(w, 150))
 	}
+}
+
+// runC02SlowUpload: the response to invocation A is uploaded slowly by a client that outlives A's
+// generation (it only needs the API address); A times out, B is invoked. Whatever the upload's fate,
+// B's caller must receive exactly B's own answer and B's runtime must be able to respond.
+func runC02SlowUpload(c *Ctx, w *World, d c02Desc, rtNext *vh.Async) {
+	invA := w.E.InvokeAsync([]byte("event-A"), vh.InvokeOpts{})
+	ev := rtNext.Wait(8 * time.Second)
+	if ev == nil || ev.Status != 200 {
+		c.Inconclusive("event A not delivered")
+		return
+	}
+	idA := ev.ReqID()
+	up := vh.NewParty("rt:uploader", w.E.Addr, w.E.Log, context.Background())
+	defer up.Close()
+	pr, pw := io.Pipe()
+	late := vh.Go(func() *vh.Resp { return up.RespondStream(idA, pr, []byte("answer-A-head|answer-A-tail")) })
+	headDone := make(chan struct{})
+	go func() {
+		pw.Write([]byte("answer-A-head|")) // returns once the transport has taken the bytes
+		close(headDone)
+	}()
+	select {
+	case <-headDone:
+	case <-time.After(5 * time.Second):
+		c.Inconclusive("upload did not start")
+		pw.Close()
+		return
+	}
+	// A's timeout (350 ms) fires while the upload is open. Whether A can be answered before the upload
+	// ends is the implementation's business: wait for it only for a bounded time.
+	aDone := invA.Wait(1500 * time.Millisecond)
+	invB := w.E.InvokeAsync([]byte("event-B"), vh.InvokeOpts{})
+	var rtB *vh.Party
+	var evB *vh.Resp
+	var evBAsync *vh.Async
+	getB := func(wait time.Duration) bool {
+		if rtB == nil {
+			if p2 := w.E.WaitRuntime(2, wait); p2 != nil {
+				rtB = w.Party(p2)
+				evBAsync = vh.Go(func() *vh.Resp { return rtB.Next() })
+			}
+		}
+		if evBAsync != nil && evB == nil {
+			if r := evBAsync.Wait(wait); r != nil && r.Status == 200 {
+				evB = r
+			}
+		}
+		return evB != nil
+	}
+	dispatchedDuringUpload := false
+	if aDone {
+		dispatchedDuringUpload = getB(1500 * time.Millisecond)
+	}
+	if dispatchedDuringUpload {
+		c.Clause("upload_open_across_dispatch")
+		time.Sleep(2 * time.Millisecond)
+	} else {
+		c.Clause("upload_blocks_teardown")
+	}
+	// the upload ends now
+	pw.Write([]byte("answer-A-tail"))
+	pw.Close()
+	r := late.Wait(8 * time.Second)
+	if dispatchedDuringUpload {
+		c.Check(r != nil && (r.Status == 0 || (r.Status >= 400 && r.Status < 500)), "stale_upload_refused", fmt.Sprintf("C02/slow-upload/stale-accepted/%d", statusOrZero(r)), "a response for the timed-out invocation whose upload ended after the next invocation was dispatched was accepted", nil)
+	}
+	if !invA.Wait(10 * time.Second) {
+		c.Check(false, "timeout_answers", "C02/slow-upload/a-hangs", "invocation A never returned", nil)
+		return
+	}
+	outA := vh.ErrName(invA.Err)
+	c.Check(outA == "timeout" || (outA == "ok" && bytes.Equal(invA.W.Body(), []byte("answer-A-head|answer-A-tail"))), "a_outcome", "C02/slow-upload/a-outcome/"+outA, "invocation A ended with neither the timeout outcome nor its own complete answer", trunc(invA.W.Body()))
+	getB(8 * time.Second)
+	if !c.Check(evB != nil && bytes.Equal(evB.Body, []byte("event-B")), "next_dispatched", "C02/slow-upload/b-not-dispatched", "invocation B was not dispatched", nil) {
+		c.SetSample(sampleLog(w, 150))
+		return
+	}
+	rb := rtB.Respond(evB.ReqID(), []byte("answer-B"), nil)
+	c.Check(rb.Status == 202, "new_generation_state_intact", fmt.Sprintf("C02/slow-upload/b-response-refused/%d-%s", rb.Status, rb.Etype), fmt.Sprintf("B's own response was answered %d %s after a slow upload for A", rb.Status, rb.Etype), nil)
+	vh.Go(func() *vh.Resp { return rtB.Next() })
+	ok := invB.Wait(6*time.Second) && invB.Err == nil && bytes.Equal(invB.W.Body(), []byte("answer-B"))
+	c.Check(ok, "next_invocation_unaffected", "C02/slow-upload/b-wrong-answer", "invocation B did not complete with exactly its own response: "+vh.ErrName(invB.Err), trunc(invB.W.Body()))
+	c.SetHooks(w.Hk.Arrived())
+	c.SetTrace(d.id()+fmt.Sprint(dispatchedDuringUpload), true)
+	if c.WantSample || c.Violated() {
+		c.SetSample(sampleLog(w, 170))
+	}
+}
+
+func statusOrZero(r *vh.Resp) int {
+	if r == nil {
+		return -1
+	}
+	return r.Status
 }
